@@ -158,4 +158,43 @@ func init() {
 		},
 		Outside: "chains longer than 64 blocks (bounded binary search, not the inductive loop-cut of the design), windows above 4, more than 2 invalid children, index wrap at 2^32, recovery of balances/transactions, interruption and Resurrect",
 	})
+	mgrAssume := []string{
+		"one concrete 32-byte seed, concrete passphrases: BIP32 derivation, secp256k1, scrypt, secretbox, SHA-2, RIPEMD-160, base58 run natively (real libraries) on concrete inputs; the claim is for this seed, not for every seed",
+		"memdb for bbolt", "the oracle derives m/purpose'/coin'/account'/branch/index with the same hdkeychain library applied along the statement's path (independent path composition, not an independent implementation of BIP32)",
+	}
+	reg(&propDef{
+		ID: "C03",
+		Runs: []hrun{
+			{Pkg: waddrmgrPkg, Fn: "ZzC03Bip84L3", Tiers: "qt", Reach: []string{"c03-end", "extended", "privkey-checked", "restarted"}, Bound: "scope BIP0084, account 0, every history of 3 operations from {next-external(1..2), next-internal, extend-external, mark-used, lock, unlock, restart, derive-from-path}; after every step every issued address is looked up and checked"},
+			{Pkg: waddrmgrPkg, Fn: "ZzC03Bip84L3Locked", Tiers: "qt", Reach: []string{"c03-end", "privkey-checked"}, Bound: "same, starting locked (keys derived on unlock)"},
+			{Pkg: waddrmgrPkg, Fn: "ZzC03Bip44L3", Tiers: "t", Reach: []string{"c03-end"}, Bound: "scope BIP0044, 3 operations"},
+			{Pkg: waddrmgrPkg, Fn: "ZzC03Bip49L3", Tiers: "t", Reach: []string{"c03-end"}, Bound: "scope BIP0049Plus, 3 operations"},
+			{Pkg: waddrmgrPkg, Fn: "ZzC03Bip86L3", Tiers: "t", Reach: []string{"c03-end"}, Bound: "scope BIP0086, 3 operations"},
+			{Pkg: waddrmgrPkg, Fn: "ZzC03Bip84L4", Tiers: "t", Reach: []string{"c03-end"}, Bound: "scope BIP0084, 4 operations"},
+		},
+		Assume:  mgrAssume,
+		Outside: "other seeds, accounts other than 0, imported xpub accounts, custom scopes, passphrase change, imports, more than 4 operations; whether btcd's DeriveNonStandard equals BIP32; histories are enumerated, all data is concrete (no solver-decided data in this check)",
+	})
+	reg(&propDef{
+		ID: "C05",
+		Runs: []hrun{
+			{Pkg: waddrmgrPkg, Fn: "ZzC05LockFresh", Tiers: "qt", Reach: []string{"c05-end"}, Bound: "fresh unlocked manager: Lock, then every secret field inspected and every private accessor tried"},
+			{Pkg: waddrmgrPkg, Fn: "ZzC05LockIssued", Tiers: "qt", Reach: []string{"c05-end"}, Bound: "after issuing 3 addresses, a lookup and a cached derivation"},
+			{Pkg: waddrmgrPkg, Fn: "ZzC05LockImports", Tiers: "qt", Reach: []string{"c05-end", "imports"}, Bound: "after importing a private key, a P2SH script and a secret witness script"},
+			{Pkg: waddrmgrPkg, Fn: "ZzC05GuessFresh", Tiers: "qt", Reach: []string{"c05-end", "right-passphrase", "wrong-passphrase"}, Bound: "Unlock with a fully symbolic 8-byte passphrase (solver decides equality with the real one)"},
+			{Pkg: waddrmgrPkg, Fn: "ZzC05GuessImports", Tiers: "qt", Reach: []string{"c05-end", "right-passphrase", "wrong-passphrase"}, Bound: "same after imports and issued addresses"},
+			{Pkg: waddrmgrPkg, Fn: "ZzC05Change", Tiers: "qt", Reach: []string{"c05-end", "wrong-old"}, Bound: "ChangePassphrase public/private x locked/unlocked x right/wrong old passphrase, checked immediately and after restart"},
+		},
+		Assume:  append([]string{"scrypt ideal KDF / tokenised SHA-2 on the symbolic passphrase guess (real scrypt for the concrete ones)", "taproot script addresses are not exercised (witness script address covers the same lock() switch)"}, mgrAssume...),
+		Outside: "passphrases of other lengths than the real one in the symbolic guess, taproot script import, wallet-level DeriveFromKeyPath, histories longer than the three set-up states",
+	})
+	reg(&propDef{
+		ID: "C08",
+		Runs: []hrun{
+			{Pkg: waddrmgrPkg, Fn: "ZzC08L2", Tiers: "qt", Reach: []string{"c08-end", "rolled-back", "commit-failed"}, Bound: "every history of 2 transactions from {next-external, next-internal, rename, mark-used, set-synced-to, new-account, extend-external}, each committed, rolled back (dry run) or failing at commit; fresh Open compared after every transaction"},
+			{Pkg: waddrmgrPkg, Fn: "ZzC08L3", Tiers: "t", Reach: []string{"c08-end", "rolled-back", "commit-failed"}, Bound: "histories of 3 transactions"},
+		},
+		Assume:  mgrAssume,
+		Outside: "more than 3 transactions, imports, several accounts beyond the ones created, wallet-level dry-run transaction creation (txToOutputs)",
+	})
 }
